@@ -280,6 +280,19 @@ def part_formatters(c, drv, kconst):
             if p[0] == "TS" and (0 in sizes or any(x > k["block"] for x in sizes)):
                 c.violation("threaded-stream-block: ThreadedBufferedStream handed blocks of sizes %s to its writer (0 = poison, max %d)" % (sizes[:8], k["block"]),
                             {"harness": "hx_tostring", "case": l[:600], "impl": o[:300]})
+    # the dispatch glue (FakeOStream::operator<< / Coerce): every fundamental type at its extremes through a real stream
+    rc, dout, derr = run_lines(impl, ["DISPATCH"])
+    want = ("short=-32768,32767 ushort=0,65535 int=-2147483648,2147483647 uint=0,4294967295 "
+            "long=-9223372036854775808,9223372036854775807 ulong=0,18446744073709551615 "
+            "llong=-9223372036854775808,9223372036854775807 ullong=0,18446744073709551615 size_t=0,18446744073709551615 "
+            "int16=-32768,32767 uint16=0,65535 int32=-2147483648,2147483647 uint32=0,4294967295 "
+            "int64=-9223372036854775808,9223372036854775807 uint64=0,18446744073709551615 "
+            "ptrdiff=-9223372036854775808,9223372036854775807 bool=0,1 char=A,B,C enum=-7,12 cstr=lit,str,piece "
+            "ptr=0x0,0xdeadbeef dbl=0.5,-1e300,1,-2.5e-7")
+    c.count("DISPATCH", bucket="format/dispatch")
+    if not dout or dout[0] != want:
+        c.violation("formatter-dispatch: streaming the extremes of every fundamental type gives %r, expected %r" % ((dout or ["<harness died>"])[0][:400], want[:400]),
+                    {"harness": "hx_tostring", "case": "DISPATCH", "impl": (dout or [""])[0], "expected": want})
     c.sample({"formatter_case": dl[5], "impl": out[1 + len(ints) + 5]})
     c.sample({"stream_case": st[3][:200], "impl": out[1 + len(ints) + len(dl) + 3]})
     # the same cases with exact-size heap destinations under ASan: any store beyond the reservation is reported
@@ -468,6 +481,14 @@ def stream_matrix(c):
                 jobs.append((tr.Tool(base.name, base.args, data, base.files, base.outputs, base.kind, base.label), name + "@file"))
     for t in option_cases():
         jobs.append((t, "options"))
+    # command lines nobody wrote a case for: every executable with generic hostile argument vectors
+    hostile = [["--help"], ["-h"], ["--bogus"], ["-"], ["--"], [""], ["-f"], ["--fields"], ["-\xff"], ["a" * 5000], ["-f", "1", "-f", "2"], ["--", "--", "x"],
+               ["-1"], ["99999999999999999999999"], ["-d"], ["-w"], ["-j"], ["-n", "-1"], ["--number", "abc"], ["-c"], ["/nonexistent/file"], ["{W}"]]
+    if c.tier == "quick":
+        hostile = [h for i, h in enumerate(hostile) if (i + c.seed) % 2 == 0] + [["--help"], [""]]
+    for name in tr.ALL_EXECUTABLES:
+        for h in hostile:
+            jobs.append((tr.Tool(name, h, b"a b\tc\n\nYQ==\n", label=name + "-hostile-args"), "options"))
     return jobs
 
 
